@@ -4,6 +4,7 @@ import (
 	"fmt"
 	"regexp"
 	"strings"
+	"sync"
 	"unicode"
 	"unicode/utf8"
 
@@ -69,11 +70,62 @@ func (p *c13) Init(tier string, seed int64) {
 	p.nAlias = 0x10000 / c13Block
 }
 
-func (p *c13) N() int { return p.nBlocks + 1 + p.nPairs + p.nAlias + p.nRand + 15*len(p.bounds) }
+func (p *c13) N() int {
+	return p.nBlocks + 1 + p.nPairs + p.nAlias + p.nRand + 15*len(p.bounds) + c13Conc
+}
 
 // c13LongChars stand at every offset around a power of two in a long value: where an implementation that works
 // through a buffer or in chunks starts a new one, each of these has its longest escape sequence cut in two.
 var c13LongChars = []string{"\U0001F600", "\U0010FFFF", "<", "\n", "é", "\u2028", "&", "%", "\\", "\xff"}
+
+// c13Conc rounds of concurrent callers: an escaper is a function of its input, whoever else is calling it (or
+// another escaper) at the same moment.
+const c13Conc = 6
+
+func (p *c13) runConcurrent(res *fw.Result, round int) {
+	r := gen.Rng(p.seed, "c13conc", round)
+	var inputs []string
+	for k := 0; k < 48; k++ {
+		inputs = append(inputs, p.randString(r.Intn(p.nRand)))
+	}
+	inputs = append(inputs, "<a href='x'>&\"</a>", "\u2028\U0001F600\x00\n", strings.Repeat("<é&>", 300), "", "plain")
+	want := make([][]string, len(inputs))
+	for i, in := range inputs {
+		for e := range escapers {
+			want[i] = append(want[i], escapers[e].fn(in))
+		}
+	}
+	const G = 16
+	bad := make([]string, G)
+	var wg sync.WaitGroup
+	for g := 0; g < G; g++ {
+		wg.Add(1)
+		go func(g int) {
+			defer wg.Done()
+			for it := 0; it < 400 && bad[g] == ""; it++ {
+				for k := range inputs {
+					i := (k*7 + g*5 + it) % len(inputs)
+					e := (k + g + it) % len(escapers)
+					if got := escapers[e].fn(inputs[i]); got != want[i][e] {
+						bad[g] = fmt.Sprintf("%s(%q) = %q while %d other callers were at work; alone it gives %q", escapers[e].name, clip(inputs[i], 60), clip(got, 120), G-1, clip(want[i][e], 120))
+						break
+					}
+				}
+			}
+		}(g)
+	}
+	wg.Wait()
+	res.Evals += G * 400 * len(inputs)
+	res.AddObs("concurrent_escapes", int64(G*400*len(inputs)))
+	res.AddClass("concurrent-callers")
+	res.UniqueNT = 1
+	for _, b := range bad {
+		if b != "" {
+			res.Fail("concurrent", fmt.Sprintf("c13:conc:%d", round), b, nil)
+			break
+		}
+	}
+}
 
 func (p *c13) runLong(res *fw.Result, j int) {
 	b := p.bounds[j/15]
@@ -120,6 +172,8 @@ func (p *c13) Describe(i int) interface{} {
 	case i < p.nBlocks+1+p.nPairs+p.nAlias:
 		b := (i - p.nBlocks - 1 - p.nPairs) * c13Block
 		return map[string]interface{}{"kind": "aliasing-pairs", "from": fmt.Sprintf("U+%04X", b), "to": fmt.Sprintf("U+%04X", b+c13Block-1), "partners": "c+0x10000, c+0x100000, c&0xFF, c>>8, c^0x80; both orders, adjacent and separated"}
+	case i >= p.nBlocks+1+p.nPairs+p.nAlias+p.nRand+15*len(p.bounds):
+		return map[string]interface{}{"kind": "concurrent-callers", "goroutines": 16, "round": i - (p.nBlocks + 1 + p.nPairs + p.nAlias + p.nRand + 15*len(p.bounds))}
 	case i >= p.nBlocks+1+p.nPairs+p.nAlias+p.nRand:
 		return map[string]interface{}{"kind": "long-values", "aligned_to": p.bounds[(i-(p.nBlocks+1+p.nPairs+p.nAlias+p.nRand))/15], "offset": (i-(p.nBlocks+1+p.nPairs+p.nAlias+p.nRand))%15 - 12}
 	default:
@@ -297,6 +351,8 @@ func (p *c13) Run(i int) (res fw.Result) {
 			}
 		}
 		res.AddClass("aliasing-block")
+	case i >= p.nBlocks+1+p.nPairs+p.nAlias+p.nRand+15*len(p.bounds):
+		p.runConcurrent(&res, i-(p.nBlocks+1+p.nPairs+p.nAlias+p.nRand+15*len(p.bounds)))
 	case i >= p.nBlocks+1+p.nPairs+p.nAlias+p.nRand:
 		p.runLong(&res, i-(p.nBlocks+1+p.nPairs+p.nAlias+p.nRand))
 	default:
@@ -328,7 +384,7 @@ func (p *c13) Run(i int) (res fw.Result) {
 }
 
 func (p *c13) Rule() string {
-	return "exhaustive: every Unicode scalar value U+0000..U+10FFFF and every byte 0x80..0xFF as a one-character string, and every ordered pair over an 84-symbol boundary alphabet (20 multi-character tokens that look like escaper output: &amp; &lt; &#39; &#x27; \\u0041 \\x41 %41 ...; hex digits, non-hex letters, white space, backslash, & # ; % u x, quotes, NUL, DEL, C1 controls, plane boundaries, U+2028/9, invalid bytes), each through all 5 escapers; for every BMP code point >= U+0080 (quick: every third) the strings pairing it, in both orders, adjacent and separated, with the code points that share its low bits (c+0x10000, c+0x100000, c&0xFF, c>>8, c^0x80); long values (a run of letters, also behind a few characters that expand, up to every offset within 12 bytes of 2^6..2^13 (thorough: ..2^17), then an astral character / a character with a long escape, digits and another such character) against buffer and chunk boundaries; plus seeded random strings (length<=200) over that alphabet and random Unicode, a quarter of them also fed back in after escaping (5x5 escaper cross product). Oracles: output matches the escaper's inert grammar; the standard decoder of the target context (HTML5 character references, ECMAScript string escapes with surrogate pairing, CSS Syntax 3 escapes, RFC 3986 percent-decoding) gives the input back for valid UTF-8 (html_attr: control characters stand for their deliberate replacement); escape(a+b)=escape(a)+escape(b). Non-trivial = the escaper changed the input; enumerated cases are distinct by construction, random strings are deduplicated by content."
+	return "exhaustive: every Unicode scalar value U+0000..U+10FFFF and every byte 0x80..0xFF as a one-character string, and every ordered pair over an 84-symbol boundary alphabet (20 multi-character tokens that look like escaper output: &amp; &lt; &#39; &#x27; \\u0041 \\x41 %41 ...; hex digits, non-hex letters, white space, backslash, & # ; % u x, quotes, NUL, DEL, C1 controls, plane boundaries, U+2028/9, invalid bytes), each through all 5 escapers; for every BMP code point >= U+0080 (quick: every third) the strings pairing it, in both orders, adjacent and separated, with the code points that share its low bits (c+0x10000, c+0x100000, c&0xFF, c>>8, c^0x80); long values (a run of letters, also behind a few characters that expand, up to every offset within 12 bytes of 2^6..2^13 (thorough: ..2^17), then an astral character / a character with a long escape, digits and another such character) against buffer and chunk boundaries; plus seeded random strings (length<=200) over that alphabet and random Unicode, a quarter of them also fed back in after escaping (5x5 escaper cross product). plus 6 rounds of 16 concurrent callers (each call must return what it returns alone). Oracles: output matches the escaper's inert grammar; the standard decoder of the target context (HTML5 character references, ECMAScript string escapes with surrogate pairing, CSS Syntax 3 escapes, RFC 3986 percent-decoding) gives the input back for valid UTF-8 (html_attr: control characters stand for their deliberate replacement); escape(a+b)=escape(a)+escape(b). Non-trivial = the escaper changed the input; enumerated cases are distinct by construction, random strings are deduplicated by content."
 }
 
 func (p *c13) Assumptions() []string {
